@@ -4,6 +4,7 @@ import Driver.C01
 import Driver.C02
 import Driver.C06
 import Driver.C12
+import Driver.C12wk
 import Driver.C13
 import Driver.C13wt
 import Driver.C19
@@ -48,6 +49,7 @@ def dispatch (prop : String) (c obs : String) : String × String × Bool :=
   | "C04" => C01.run c obs
   | "C02" => C02.run c obs
   | "C12" => C12.run c obs
+  | "C12wk" => C12wk.run c obs
   | "C13" => C13.run c obs
   | "C13wt" => C13wt.run c obs
   | "C19" => C19.run c obs
